@@ -30,16 +30,18 @@ func (w *verifWorld) mkMsg(tag string) *verifMsg {
 }
 
 type verifCall struct {
-	p        *gcpPicker
-	useStale bool
-	method   string
-	cmd      pb.AffinityConfig_Command
-	hasCfg   bool
-	req      *verifMsg
-	reply    *verifMsg
-	ctx      *verifCtx
-	keyed    bool   // the pick looks the first request key up in the affinity table
-	key      string // that key
+	p         *gcpPicker
+	useStale  bool
+	method    string
+	cmd       pb.AffinityConfig_Command
+	hasCfg    bool
+	req       *verifMsg
+	reply     *verifMsg
+	ctx       *verifCtx
+	keyed     bool   // the pick looks the first request key up in the affinity table
+	key       string // that key
+	unbinds   bool   // a successful completion of this call unbinds unbindKey
+	unbindKey string
 }
 
 // mkCall chooses the picker (current or stale), method, messages and context of one call.
@@ -62,7 +64,17 @@ func (w *verifWorld) mkCall() *verifCall {
 	c.req, c.reply = w.mkMsg("req"), w.mkMsg("reply")
 	c.ctx = &verifCtx{gcp: &gcpContext{reqMsg: c.req, replyMsg: c.reply}, hasGcp: verifBool("hasGcpCtx")}
 	if c.hasCfg && c.cmd != pb.AffinityConfig_BIND && c.ctx.hasGcp && c.req != nil && len(c.req.Keys) > 0 {
-		c.keyed, c.key = true, c.req.Keys[0]
+		// the empty string is "no affinity key" (what an unset proto3 string field reads as): such a
+		// call is routed like an unkeyed one
+		c.keyed, c.key = c.req.Keys[0] != "", c.req.Keys[0]
+	}
+	if c.hasCfg && c.cmd == pb.AffinityConfig_UNBIND && c.ctx.hasGcp && c.req != nil {
+		// the completion of an UNBIND call removes the binding of the request's first key - of the
+		// empty key when the request carries none
+		c.unbinds = true
+		if len(c.req.Keys) > 0 {
+			c.unbindKey = c.req.Keys[0]
+		}
 	}
 	return c
 }
